@@ -141,11 +141,23 @@ def lean_files(idx=None, bbox=None):
              "   `labeller_size` of Props/C15.lean each `wf_` obligation makes those theorems statements about that\n"
              "   labeller as it is coded now; the `edges_` obligations (labellers returning a labelled graph) feed\n"
              "   `labeller_output_wf`. -/\n"
-             "import MenpoModel.Generated.C15Labellers\n\n"
+             "import MenpoModel.Generated.C15Labellers\nimport MenpoModel.Props.C15\n\n"
              "namespace MenpoModel.C15.GenProps\nopen MenpoModel.C15\n\n"
              + "".join(obls) + "\n"
              "/-- all of them at once, in the form the property theorems consume -/\n"
              "theorem all_wf : ∀ p ∈ Generated.all, labellerWF p.2 = true := by decide +kernel\n\n"
+             "/-- the labeller clause of the property for every index-based labeller the live module exports: wrong sizes\n"
+             "are rejected, the labeller commutes with every map of the points, output point `j` is input point `ind[j]`\n"
+             "(all distinct), every output point is labelled -/\n"
+             "theorem live_labellers {α β : Type} : ∀ p ∈ Generated.all, ∀ (xs : List α),\n"
+             "    (xs.length ≠ p.2.nExpected → p.2.apply xs = .error .labelling) ∧\n"
+             "    (∀ f : α → β, p.2.apply (xs.map f) = (p.2.apply xs).map (mapPts f)) ∧\n"
+             "    (∀ g, p.2.apply xs = .ok g → g.pts.length = p.2.ind.length ∧\n"
+             "      (∀ j, j < p.2.ind.length → p.2.ind[j]! < xs.length ∧ g.pts[j]? = xs[p.2.ind[j]!]?) ∧\n"
+             "      p.2.ind.Nodup ∧ Covered g) :=\n"
+             "  fun p hp xs => ⟨(labeller_size p.2 xs).1, fun f => labeller_commutes p.2 f xs, fun g h =>\n"
+             "    have r := labeller_reindexes p.2 (all_wf p hp) xs g h\n"
+             "    ⟨r.1, r.2.1, r.2.2, (labeller_all_labelled p.2 (all_wf p hp) xs g h).1⟩⟩\n\n"
              "end MenpoModel.C15.GenProps\n")
     return {"MenpoModel/Generated/C15Labellers.lean": gen, "MenpoModel/GenProps/C15.lean": props}
 
@@ -158,7 +170,7 @@ def obligation_names(idx):
         out.append("MenpoModel.C15.GenProps.wf_" + n)
         if t["kind"] == GRAPH_KIND:
             out.append("MenpoModel.C15.GenProps.edges_" + n)
-    return out + ["MenpoModel.C15.GenProps.all_wf"]
+    return out + ["MenpoModel.C15.GenProps.all_wf", "MenpoModel.C15.GenProps.live_labellers"]
 
 
 def edges_out_of_range(idx):
